@@ -23,6 +23,13 @@ Ops(vs) ==
         \cup {[O0 EXCEPT !.op = "Index", !.v = p - 1, !.i = i] : i \in Idx(RLen(vs[p].seq))}
         \cup {[O0 EXCEPT !.op = "Iterate", !.v = p - 1], [O0 EXCEPT !.op = "Len", !.v = p - 1]}
         : p \in 1..Len(vs)}
+\* the Elvish-layer operations: not part of the generated behaviours, but their run form is checked
+\* against the array reference together with the others (RefinesArray)
+EOps(vs) ==
+  UNION {    {[O0 EXCEPT !.op = "EIndex", !.v = p - 1, !.i = i] : i \in Idx(RLen(vs[p].seq))}
+        \cup {[O0 EXCEPT !.op = "EAssoc", !.v = p - 1, !.i = i, !.x = x] : i \in Idx(RLen(vs[p].seq)), x \in AVals}
+        \cup {[O0 EXCEPT !.op = "ESlice", !.v = p - 1, !.i = i, !.j = j] : i \in Idx(RLen(vs[p].seq)), j \in Idx(RLen(vs[p].seq))}
+        : p \in 1..Len(vs)}
 
 Base == RLen(vers[1].seq)
 Init == /\ \E b \in Bases : vers = <<[seq |-> Norm(<<Run(K + 1, b)>>), kind |-> "whole"]>>
@@ -41,7 +48,7 @@ Persistence == [][/\ Len(vers') >= Len(vers)
                   /\ \A k \in DOMAIN vers : vers'[k] = vers[k]]_vars
 Canonical == \A k \in DOMAIN vers : WellFormed(vers[k].seq) /\ Norm(vers[k].seq) = vers[k].seq
 \* every result is the array result (explicit sequences): switched off for the large bases
-RefinesArray == CheckRefine => \A o \in Ops(vers) : Refines(vers[o.v + 1].seq, o)
+RefinesArray == CheckRefine => \A o \in Ops(vers) \cup EOps(vers) : Refines(vers[o.v + 1].seq, o)
 Laws == CheckRefine => \A k \in DOMAIN vers : \A x \in CVals : ArrayLaws(Expand(vers[k].seq), x)
 
 LastOp == LET h == hist'[Len(hist')] IN [O0 EXCEPT !.op = h[1], !.v = h[2], !.i = h[3], !.j = h[4], !.x = h[5]]
